@@ -55,8 +55,11 @@ from vlib import env
 THEOREMS = [
     "stanza_text_roundtrip_partial", "from_as_stanza", "conflicts_roundtrip_partial",
     "conflicts_roundtrip_witness", "select_partition", "select_characterisation",
-    "resolve_removes_exactly_partial", "merge_modified_roundtrip_partial",
+    "resolve_removes_exactly_partial", "merge_modified_roundtrip_partial", "merge_modified_witness",
+    "merge_modified_sound_partial", "resolveDone_eq_resolveWith", "resolve_with_partial",
+    "resolve_unhandled_keeps_all_partial",
 ]
+RUST = ("osutils-py",)   # is_inside / is_inside_any are rebuilt from the Rust source of the tree under test
 RULE = ("conflict lists of 0..6 conflicts over the ten classes with generated text values (atoms with every "
         "delimiter the writer/reader look at, random unicode); non-trivial = list non-empty and some value is "
         "not plain [a-z/]; select cases: all subsets of <=3 paths of a 16-path universe x recurse, "
@@ -71,8 +74,9 @@ TRUSTED = [
     "bzrformats.rio (external, compiled) is modelled from its grammar and observed behaviour; writer and reader "
     "are compared with the model on every generated and every malformed file of this run",
     "UTF-8 encoding/decoding of text is taken as a bijection (model works on characters)",
-    "osutils.is_inside_any (Rust Path::starts_with) is modelled component-wise and compared per case; the "
-    "prebuilt breezy/_osutils_rs of the tree under test is used (not rebuilt by this check)",
+    "osutils.is_inside / is_inside_any (Rust Path::starts_with, rebuilt from crates/osutils of the tree under "
+    "test on every run) are modelled component-wise; compared on all ordered pairs of the path universe (level I) "
+    "and inside every select case; the select oracle uses an independent Python component-prefix reference",
 ]
 
 TYPES = ["text conflict", "contents conflict", "path conflict", "duplicate id", "duplicate", "parent loop",
@@ -157,13 +161,36 @@ def _values(spec):
     return [v for v in out if v is not None]
 
 
-def _family(specs):
-    """classifier of the known violation family, from the concrete input"""
-    for s in specs:
-        for v in _values(s):
-            if any(line.endswith("\r") for line in v.split("\n")):
-                return "cr-at-line-end"
+def _cr_strip(v):
+    """what the rio reader makes of a stored value: every line loses its trailing CRs"""
+    if v is None:
+        return None
+    if isinstance(v, bytes):
+        return b"\n".join(line.rstrip(b"\r") for line in v.split(b"\n"))
+    return "\n".join(line.rstrip("\r") for line in v.split("\n"))
+
+
+def _has_cr_line_end(specs):
+    return any(line.endswith("\r") for s in specs for v in _values(s) for line in v.split("\n"))
+
+
+def _family(specs, status, back):
+    """classifier of the known violation family, from the concrete input AND the
+    observed failure: some stored value has a line ending in CR and what was read
+    back is exactly the stored list with those CRs dropped.  Any other difference
+    (also on lists that happen to contain such a value) is not this family."""
+    if status == "ok" and _has_cr_line_end(specs) and back == [[s[0]] + [_cr_strip(v) for v in s[1:]] for s in specs]:
+        return "cr-at-line-end"
     return None
+
+
+def _mm_family(hashes, back, sha):
+    """same for the merge-hash records: a recorded hash with a line ending in CR,
+    and the re-read dict is exactly what the CR-stripped hashes would give"""
+    if not any(line.endswith(b"\r") for h in hashes.values() for line in h.split(b"\n")):
+        return None
+    exp_cr = {p: _cr_strip(h) for p, h in hashes.items() if p in sha and _cr_strip(h) == sha[p]}
+    return "cr-at-line-end" if back == exp_cr else None
 
 
 # ---------------------------------------------------------------- generators
@@ -218,10 +245,14 @@ def plain(specs):
 class _Tree:
     """one real 2a working tree reused by all levels"""
 
+    # content: bytes = regular file, None = directory, ("symlink", target), ("gone", bytes) = versioned
+    # file deleted from disk after `add`
     FILES = [("a", b"a-id", b"A\n"), ("dir", b"dir-id", None), ("dir/f", b"f-id", b"F\n"),
              ("dir/sub", b"sub-id", None), ("dir/sub/g", "g-é-id".encode(), b"G\n"),
              ("é", "é-id".encode(), b"e-acute\n"), ("日本", "日本-id".encode(), b"nihon\n"),
-             ("sp ace", b"space-id", b"sp\n"), ("ab", b"ab-id", b"AB\n")]
+             ("sp ace", b"space-id", b"sp\n"), ("ab", b"ab-id", b"AB\n"),
+             ("gone", b"gone-id", ("gone", b"G0\n")), ("ln", b"ln-id", ("symlink", "a")),
+             ("marked", b"marked-id", b"x\n<<<<<<< TREE\ny\n=======\nz\n>>>>>>> MERGE-SOURCE\n")]
 
     def __init__(self):
         self.wt = env.make_tree("2a")
@@ -231,15 +262,26 @@ class _Tree:
             full = os.path.join(self.base, p)
             if content is None:
                 os.mkdir(full)
+            elif isinstance(content, tuple) and content[0] == "symlink":
+                os.symlink(content[1], full)
             else:
                 with open(full, "wb") as f:
-                    f.write(content)
+                    f.write(content[1] if isinstance(content, tuple) else content)
             paths.append(p)
             ids.append(i)
         self.wt.add(paths, ids=ids)
+        for p, i, content in self.FILES:
+            if isinstance(content, tuple) and content[0] == "gone":
+                os.unlink(os.path.join(self.base, p))
         from breezy import osutils
-        self.sha = {p: osutils.sha_string(c) for p, i, c in self.FILES if c is not None}
+        # what get_file_sha1 gives now: only regular files present on disk have one
+        self.sha = {p: osutils.sha_string(c) for p, i, c in self.FILES if isinstance(c, bytes)}
+        self.gone_sha = {p: osutils.sha_string(c[1]) for p, i, c in self.FILES if isinstance(c, tuple) and c[0] == "gone"}
         self.ids = {p: i for p, i, c in self.FILES}
+        # TextConflict.action_auto raises NotImplementedError for these paths: not a regular file / conflict markers
+        self.auto_unhandled = sorted(p for p, i, c in self.FILES
+                                     if c is None or (isinstance(c, tuple) and c[0] == "symlink")
+                                     or (isinstance(c, bytes) and b"<<<<<<<" in c))
 
     def open(self):
         from breezy.workingtree import WorkingTree
@@ -331,7 +373,6 @@ def _level_a(ctx, tree, n):
         k = ctx.rng.choice([0, 1, 1, 2, 3, 4, 6])
         specs = [gen_spec(ctx.rng) for _ in range(k)]
         case = dict(level="A", conflicts=[json_spec(s) for s in specs])
-        fam = _family(specs)
         try:
             wt = tree.open()
             wt.set_conflicts([mk_obj(s) for s in specs])
@@ -341,6 +382,7 @@ def _level_a(ctx, tree, n):
             continue
         data = tree.raw("conflicts")
         status, back = _read_conflicts(tree)
+        fam = _family(specs, status, back)
         # oracle: read back identically
         if status != "ok":
             ctx.violation(case, "stored conflict list cannot be read back: %s" % status, family=fam)
@@ -354,6 +396,8 @@ def _level_a(ctx, tree, n):
         for s in specs:
             ctx.count("A:type:" + TYPES[s[0]])
         ctx.count("A:family:%s" % fam)
+        if _has_cr_line_end(specs):
+            ctx.count("A:cr-line-end-input:" + ("family" if fam else ("roundtrips" if back == specs else "OTHER-FAILURE")))
         cases.append(case); lines.append("write " + enc_specs(specs)); outs.append(_file_arg(data))
         cases.append(case); lines.append("read " + _file_arg(data))
         outs.append("ok " + enc_specs(back) if status == "ok" else status)
@@ -445,7 +489,59 @@ def _level_b(ctx, tree, n):
 
 
 # ---------------------------------------------------------------- level C
-SEL_PATHS = ["a", "a/b", "a/b/c", "ab", "a b", "", "dir", "dir/f", "dir/sub/g", "é", "é/x", "a//b", "a/./b", "./a", "a/", "zz"]
+SEL_PATHS = ["a", "a/b", "a/b/c", "ab", "a b", "", "dir", "dir/f", "dir/sub/g", "é", "é/x", "a//b", "a/./b", "./a", "a/", "zz",
+             "/a", "/", ".", "..", "a/..", "./", "/a/b", "a/.", "../a"]
+# level I: is_inside on all ordered pairs of these
+INSIDE_PATHS = SEL_PATHS + ["//a", "/.", "/./a", "./.", "a/../b", "a/../b/c", "./a/b", "..a", "a..", ".a", "a/...", "é/", "/é",
+                            "a/b/", "//", "/..", "./..", "dir/sub", "dir/su"]
+
+
+def _ref_components(p):
+    """independent reference for std::path::Path::components on Unix: a leading
+    `/` is the root component, a leading `.` is kept, every other empty or `.`
+    segment vanishes, `..` is an ordinary component"""
+    segs = p.split("/")
+    out = []
+    if p.startswith("/"):
+        out.append(("root",))
+    elif segs[0] == ".":
+        out.append(("cur",))
+    for i, x in enumerate(segs):
+        if x == "" or x == ".":
+            continue
+        out.append(("n", x))
+    return out
+
+
+def _ref_inside(d, f):
+    """`Path::starts_with`: component-wise prefix"""
+    cd, cf = _ref_components(d), _ref_components(f)
+    return cf[:len(cd)] == cd
+
+
+def _level_i(ctx):
+    """osutils.is_inside / is_inside_any against the model and the reference, all ordered pairs"""
+    from breezy import osutils
+    cases, lines, outs = [], [], []
+    for d in INSIDE_PATHS:
+        for f in INSIDE_PATHS:
+            case = dict(level="I", dir=d, fname=f)
+            try:
+                r = bool(osutils.is_inside(d, f))
+                r_any = bool(osutils.is_inside_any([d], f)) and bool(osutils.is_inside_any(["no/such/dir", d], f)) \
+                    and not osutils.is_inside_any([], f)
+            except BaseException as e:
+                _reraise_control(e)
+                ctx.violation(case, "is_inside(%r, %r) raised %s: %s" % (d, f, type(e).__name__, str(e)[:200]))
+                continue
+            ref = _ref_inside(d, f)
+            if r != ref or r_any != ref:
+                ctx.violation(case, "is_inside(%r, %r) = %r, is_inside_any = %r, but %r is%s a component-wise prefix of %r"
+                              % (d, f, r, r_any, d, "" if ref else " not", f))
+            ctx.case(case, nontrivial=d != f and d != "")
+            ctx.count("I:%s" % ("inside" if r else "outside"))
+            cases.append(case); lines.append("inside %s %s" % (hx(d), hx(f))); outs.append("T" if r else "F")
+    ctx.diff(cases, lines, outs)
 
 
 class _StubTree:
@@ -460,15 +556,23 @@ class _StubTree:
 
 
 def _criterion(spec, paths, ids, recurse):
-    """the statement's selection rule, with the real is_inside_any"""
-    from breezy import osutils
+    """the statement's selection rule: the conflict's path / conflict_path is one
+    of the paths, or (recurse) inside one of them (component-wise prefix, by the
+    independent reference — the real is_inside is checked against it in level I),
+    or its file id / conflict file id is the id of one of the paths"""
     t, p, f, cp, a, cf = spec
     for x in (p, cp):
         if x is None:
             continue
-        if x in paths or (recurse and osutils.is_inside_any(set(paths), x)):
+        if x in paths or (recurse and any(_ref_inside(d, x) for d in paths)):
             return True
     return any(i is not None and i in ids for i in (f, cf))
+
+
+def _auto_handled(spec, tree):
+    """does `conflict.do("auto", tree)` succeed?  Only TextConflict implements it:
+    fine when the path is not in the tree or a regular file without conflict markers"""
+    return spec[0] == 0 and spec[1] not in tree.auto_unhandled
 
 
 def _select_oracle(ctx, case, specs, paths, ids, recurse, new, sel, what):
@@ -480,6 +584,28 @@ def _select_oracle(ctx, case, specs, paths, ids, recurse, new, sel, what):
             what, [s[:2] for s in new], [s[:2] for s in sel], [s[:2] for s in exp_new], [s[:2] for s in exp_sel]))
         return False
     return True
+
+
+def _resolve_expected(tree, specs, paths, recurse, action):
+    if paths is None:
+        kept, sel = [], list(specs)
+    else:
+        ids = {tree.ids[p] for p in paths if p in tree.ids}
+        kept = [s for s in specs if not _criterion(s, paths, ids, recurse)]
+        sel = [s for s in specs if _criterion(s, paths, ids, recurse)]
+    if action == "done":
+        return kept
+    return kept + [s for s in sel if not _auto_handled(s, tree)]
+
+
+def _resolve_line(tree, action, recurse, paths, before_file):
+    line = "%s %s %s %s %s" % (
+        "resolve" if action == "done" else "resolveauto",
+        "T" if recurse else "F", "~" if paths is None else (",".join(hx(p) for p in paths) or "-"),
+        ",".join("%s/%s" % (hx(p), hx(i)) for p, i in sorted(tree.ids.items())), _file_arg(before_file))
+    if action != "done":
+        line += " " + (",".join(hx(p) for p in tree.auto_unhandled) or "-")
+    return line
 
 
 def gen_sel_spec(rng, idpool):
@@ -534,7 +660,7 @@ def _level_c(ctx, tree, rounds, real_n):
                 outs.append(enc_specs(new) + ";" + enc_specs(sel))
     ctx.diff(cases, lines, outs)
     # resolve() on the real tree
-    real_paths = ["a", "dir", "dir/f", "dir/sub", "dir/sub/g", "é", "日本", "sp ace", "ab", "zz", "dir/zz"]
+    real_paths = ["a", "dir", "dir/f", "dir/sub", "dir/sub/g", "é", "日本", "sp ace", "ab", "zz", "dir/zz", "gone", "ln", "marked"]
     idpool = list(tree.ids.values())
     cases, lines, outs = [], [], []
     for i in range(real_n):
@@ -548,57 +674,100 @@ def _level_c(ctx, tree, rounds, real_n):
         mode = ctx.rng.random()
         paths = None if mode < 0.1 else ctx.rng.sample(real_paths, ctx.rng.randrange(0, 4))
         recurse = ctx.rng.random() < 0.5
-        case = dict(level="C", op="resolve", conflicts=[json_spec(s) for s in specs], paths=paths, recurse=recurse)
+        # "auto" is implemented by TextConflict only (and refuses non-files and files with conflict
+        # markers): every other selected conflict raises NotImplementedError and must be kept
+        action = "done" if ctx.rng.random() < 0.65 else "auto"
+        case = dict(level="C", op="resolve", conflicts=[json_spec(s) for s in specs], paths=paths, recurse=recurse,
+                    action=action)
         try:
             wt = tree.open()
             wt.set_conflicts([mk_obj(s) for s in specs])
             before_file = tree.raw("conflicts")
             wt = tree.open()
-            _mod_conflicts.resolve(wt, paths, ignore_misses=True, recursive=recurse, action="done")
+            _mod_conflicts.resolve(wt, paths, ignore_misses=True, recursive=recurse, action=action)
         except BaseException as e:
             _reraise_control(e)
             ctx.violation(case, "resolve raised %s: %s" % (type(e).__name__, str(e)[:200]))
             continue
         after_file = tree.raw("conflicts")
         status, back = _read_conflicts(tree)
-        if paths is None:
-            exp = []
-        else:
-            ids = {tree.ids[p] for p in paths if p in tree.ids}
-            exp = [s for s in specs if not _criterion(s, paths, ids, recurse)]
+        exp = _resolve_expected(tree, specs, paths, recurse, action)
         if status != "ok" or back != exp:
-            ctx.violation(case, "after resolve(%r, recursive=%r) the tree lists %r, expected exactly the "
-                          "not-selected conflicts %r" % (paths, recurse, back and [s[:2] for s in back], [s[:2] for s in exp]))
+            ctx.violation(case, "after resolve(%r, recursive=%r, action=%r) the tree lists %r, expected exactly the "
+                          "not-selected conflicts%s %r" % (
+                              paths, recurse, action, back and [s[:2] for s in back],
+                              "" if action == "done" else " followed by the selected ones the action cannot handle",
+                              [s[:2] for s in exp]))
         ctx.case(case, nontrivial=bool(exp) and len(exp) < len(specs))
-        ctx.count("C:resolve:" + ("all" if paths is None else "paths%d" % len(paths)))
+        ctx.count("C:resolve:%s:%s" % (action, "all" if paths is None else "paths%d" % len(paths)))
         cases.append(case)
-        lines.append("resolve %s %s %s %s" % (
-            "T" if recurse else "F", "~" if paths is None else (",".join(hx(p) for p in paths) or "-"),
-            ",".join("%s/%s" % (hx(p), hx(i)) for p, i in sorted(tree.ids.items())), _file_arg(before_file)))
+        lines.append(_resolve_line(tree, action, recurse, paths, before_file))
         outs.append(_file_arg(after_file))
     ctx.diff(cases, lines, outs)
     tree.put_raw("conflicts", None)
 
 
 # ---------------------------------------------------------------- level D
+HASH_ATOMS = [b"", b"-", b"None", b"a: b", b"hash: x", b"\tx", b"ab\ncd", b"\n", b"x\n", b"\nx", b" ", b"#", b"\rx", b"a\rb"]
+
+
+def _tree3(tree):
+    root_id = tree.open().path2id("")
+    return ",".join("%s/%s/%s" % (hx(p), hx(i), hx(tree.sha.get(p)))
+                    for p, i in [("", root_id)] + [(p, i) for p, i, c in tree.FILES])
+
+
+def _gen_hash(rng, tree, p):
+    """recorded hashes (ASCII bytes — others are refused, see level X): the current sha1, another file's,
+    the sha1 the deleted file had, random hex, decorated variants of the current sha1 (CR / LF / blanks /
+    case / truncation) and delimiter atoms of the stanza format"""
+    r = rng.random()
+    cur = tree.sha.get(p) or tree.gone_sha.get(p)
+    if cur is not None and r < 0.5:
+        return cur
+    if r < 0.68:
+        return rng.choice(list(tree.sha.values()) + list(tree.gone_sha.values()))
+    if r < 0.8:
+        return ("%040x" % rng.getrandbits(160)).encode()
+    if r < 0.9:
+        return rng.choice(HASH_ATOMS)
+    base = cur or rng.choice(list(tree.sha.values()))
+    return rng.choice([base + b"\r", base + b"\r\r", base + b"\n", base + b" ", b" " + base, base.upper(), base[:-1],
+                       base + b"\n\r", base + b"\r\n", base[:20] + b"\n" + base[20:], b"\r" + base])
+
+
+def _hash_kind(tree, p, h):
+    if p not in tree.ids:
+        return "unversioned-path"
+    if p not in tree.sha:
+        return "no-current-sha1"
+    if h == tree.sha[p]:
+        return "current"
+    if _cr_strip(h) == tree.sha[p]:
+        return "current+CR"
+    return "hex-other" if len(h) == 40 and h.isalnum() else "odd"
+
 def _level_d(ctx, tree, n):
     from breezy import errors
-    versioned = [p for p, i, c in tree.FILES if c is not None]
-    others = ["dir", "zz", "dir/zz", "", "a\nb", "é/x"]
+    # every versioned path: regular files, directories, a symlink, a file deleted from disk (the last
+    # three have no current sha1: get_file_sha1 gives None), and unversioned / odd paths
+    versioned = [p for p, i, c in tree.FILES]
+    others = ["zz", "dir/zz", "", "a\nb", "é/x"]
     cases, lines, outs = [], [], []
-    root_id = tree.open().path2id("")
-    tree3 = ",".join("%s/%s/%s" % (hx(p), hx(i), hx(tree.sha.get(p, b"-")))
-                     for p, i, c in [("", root_id, None)] + tree.FILES)
-    for i in range(n):
+    tree3 = _tree3(tree)
+    # always first: the witness of `merge_modified_witness` (current sha1 + CR is read back as current),
+    # entries without a current sha1 recorded with a real sha1 / with "-" / "None", a multi-line hash
+    fixed = [{"a": tree.sha["a"] + b"\r"},
+             {"gone": tree.gone_sha["gone"], "ln": tree.sha["a"], "dir": tree.sha["a"], "": tree.sha["a"], "a": tree.sha["a"]},
+             {"dir": b"-", "gone": b"None", "ln": b"", "ab": tree.sha["ab"]},
+             {"a": tree.sha["a"] + b"\n", "ab": b"x\n" + tree.sha["ab"], "dir/f": tree.sha["dir/f"]}]
+    for i in range(n + len(fixed)):
         hashes = {}
-        for p in ctx.rng.sample(versioned + others, ctx.rng.randrange(0, 7)):
-            r = ctx.rng.random()
-            if p in tree.sha and r < 0.6:
-                hashes[p] = tree.sha[p]
-            elif r < 0.8:
-                hashes[p] = ctx.rng.choice(list(tree.sha.values()))
-            else:
-                hashes[p] = ("%040x" % ctx.rng.getrandbits(160)).encode()
+        if i < len(fixed):
+            hashes = dict(fixed[i])
+        else:
+            for p in ctx.rng.sample(versioned + others, ctx.rng.randrange(0, 7)):
+                hashes[p] = _gen_hash(ctx.rng, tree, p)
         case = dict(level="D", hashes=sorted((p, h.decode()) for p, h in hashes.items()))
         try:
             tree.open().set_merge_modified(dict(hashes))
@@ -609,10 +778,16 @@ def _level_d(ctx, tree, n):
             ctx.violation(case, "merge-modified store/read raised %s: %s" % (type(e).__name__, str(e)[:200]))
             continue
         exp = {p: h for p, h in hashes.items() if p in tree.sha and h == tree.sha[p]}
+        fam = None
         if back != exp:
-            ctx.violation(case, "merge_modified() read back %r, expected %r" % (back, exp))
+            fam = _mm_family(hashes, back, tree.sha)
+            ctx.violation(case, "merge_modified() read back %r, expected %r (the recorded hashes of versioned regular "
+                          "files that equal the current sha1)" % (back, exp), family=fam)
         ctx.case(case, nontrivial=bool(exp) and len(exp) < len(hashes))
         ctx.count("D:kept:%d" % min(len(exp), 4))
+        ctx.count("D:family:%s" % fam)
+        for p, h in hashes.items():
+            ctx.count("D:hash:" + _hash_kind(tree, p, h))
         items = list(hashes.items())
         cases.append(case)
         lines.append("mmwrite %s %s" % (tree3, ",".join("%s/%s" % (hx(p), hx(h)) for p, h in items) or "-"))
@@ -667,6 +842,31 @@ def _level_x(ctx, tree):
         else:
             ctx.count("X:file-unchanged")
     tree.put_raw("conflicts", None)
+    # merge hashes that are not ASCII are refused before the file is touched (also when a good record precedes)
+    tree.open().set_merge_modified({"a": tree.sha["a"]})
+    before = tree.raw("merge-hashes")
+    for bad in ({"a": b"\xff"}, {"a": tree.sha["a"], "ab": "é".encode()}):
+        try:
+            tree.open().set_merge_modified(bad)
+            ctx.count("X:mm-accepted")
+        except UnicodeError:
+            ctx.count("X:mm-refused")
+        ctx.count("X:mm-file-changed-after-refusal" if tree.raw("merge-hashes") != before else "X:mm-file-unchanged")
+    tree.put_raw("merge-hashes", None)
+    # a file id with a line ending in CR cannot get into a working tree (hypothesis `ht` of the merge-hash
+    # theorems): `add` refuses it
+    scratch = env.make_tree("2a")
+    with open(os.path.join(scratch.basedir, "x"), "wb") as f:
+        f.write(b"x")
+    try:
+        with _quiet_stderr(True):
+            scratch.add(["x"], ids=[b"i\r"])
+        ctx.count("X:cr-id-accepted")
+        ctx.assumptions.append("UNEXPECTED: WorkingTree.add accepted the file id b'i\\r' — the merge-hash theorems "
+                               "assume tree file ids have no line ending in CR")
+    except BaseException as e:
+        _reraise_control(e)
+        ctx.count("X:cr-id-refused:" + type(e).__name__)
 
 
 # ---------------------------------------------------------------- entry points
@@ -680,8 +880,9 @@ def run(ctx, scale=1):
 
     _level_a(ctx, tree, ctx.pick(1000, 10000) * scale); lap("A")
     _level_b(ctx, tree, ctx.pick(400, 3000) * scale); lap("B")
-    _level_c(ctx, tree, ctx.pick(20, 120) * scale, ctx.pick(250, 2000) * scale); lap("C")
-    _level_d(ctx, tree, ctx.pick(250, 2000) * scale); lap("D")
+    _level_i(ctx); lap("I")
+    _level_c(ctx, tree, ctx.pick(24, 140) * scale, ctx.pick(300, 2400) * scale); lap("C")
+    _level_d(ctx, tree, ctx.pick(400, 3000) * scale); lap("D")
     _level_x(ctx, tree); lap("X")
 
 
@@ -698,9 +899,31 @@ def replay(ctx, case):
         data = tree.raw("conflicts")
         status, back = _read_conflicts(tree)
         if status != "ok" or back != specs:
-            ctx.violation(case, "conflict list read back differently: %s %r" % (status, back), family=_family(specs))
-        return dict(case=case, impl="ok " + enc_specs(back) if status == "ok" else status,
-                    model=ctx.model(["read " + _file_arg(data)])[0], file=data.decode("utf-8", "replace"),
+            ctx.violation(case, "conflict list read back differently: %s %r" % (status, back),
+                          family=_family(specs, status, back))
+        out = dict(case=case, impl="ok " + enc_specs(back) if status == "ok" else status,
+                   model=ctx.model(["read " + _file_arg(data)])[0], file=data.decode("utf-8", "replace"))
+        if lvl == "C":
+            from breezy import conflicts as _mod_conflicts
+            paths, recurse, action = case["paths"], case["recurse"], case.get("action", "done")
+            _mod_conflicts.resolve(tree.open(), paths, ignore_misses=True, recursive=recurse, action=action)
+            after = tree.raw("conflicts")
+            status, back = _read_conflicts(tree)
+            exp = _resolve_expected(tree, specs, paths, recurse, action)
+            if status != "ok" or back != exp:
+                ctx.violation(case, "after resolve(%r, recursive=%r, action=%r) the tree lists %r, expected %r" % (
+                    paths, recurse, action, back and [s[:2] for s in back], [s[:2] for s in exp]))
+            out.update(impl=_file_arg(after), model=ctx.model([_resolve_line(tree, action, recurse, paths, data)])[0],
+                       after=(after or b"").decode("utf-8", "replace"))
+        out["oracle_failures"] = [v["what"] for v in ctx.violations]
+        return out
+    if lvl == "I":
+        from breezy import osutils
+        d, f = case["dir"], case["fname"]
+        r = bool(osutils.is_inside(d, f))
+        if r != _ref_inside(d, f):
+            ctx.violation(case, "is_inside(%r, %r) = %r, reference %r" % (d, f, r, _ref_inside(d, f)))
+        return dict(case=case, impl="T" if r else "F", model=ctx.model(["inside %s %s" % (hx(d), hx(f))])[0],
                     oracle_failures=[v["what"] for v in ctx.violations])
     if lvl == "B":
         b = None if case["file"] is None else bytes.fromhex(case["file"])
@@ -727,5 +950,9 @@ def replay(ctx, case):
     back = tree.open().merge_modified()
     exp = {p: h for p, h in hashes.items() if p in tree.sha and h == tree.sha[p]}
     if back != exp:
-        ctx.violation(case, "merge_modified() read back %r, expected %r" % (back, exp))
-    return dict(case=case, impl=repr(back), model=repr(exp), oracle_failures=[v["what"] for v in ctx.violations])
+        ctx.violation(case, "merge_modified() read back %r, expected %r" % (back, exp),
+                      family=_mm_family(hashes, back, tree.sha))
+    data = tree.raw("merge-hashes")
+    return dict(case=case, impl="ok " + (",".join("%s/%s" % (hx(p), hx(h)) for p, h in back.items()) or "-"),
+                model=ctx.model(["mmread %s %s" % (_tree3(tree), _file_arg(data))])[0], expected=repr(exp),
+                file=(data or b"").decode("utf-8", "replace"), oracle_failures=[v["what"] for v in ctx.violations])
